@@ -163,9 +163,95 @@ FILTER_KINDS = ('SizeFilter', 'PrefixFilter', 'PositionFilter', 'SuffixFilter',
                 'OverlapFilter')
 
 
+def effective_tables(case, upto):
+    """Table specs as they are before call number `upto`: the caller's own
+    edits (history ops 'edit_table', addressed by key value so that they survive
+    row permutations and copies) applied to the generated tables."""
+    import copy
+    tables = case['tables']
+    out = None
+    for op in case['history'][:upto]:
+        if op.get('op') != 'edit_table':
+            continue
+        for name in (op['t'], op['t'] + '__copy'):
+            if name not in tables:
+                continue
+            if out is None:
+                out = dict(tables)
+            if out[name] is tables[name]:
+                out[name] = copy.deepcopy(tables[name])
+            spec = out[name]
+            ki = spec['columns'].index(op['key_col'])
+            ci = spec['columns'].index(op['col'])
+            for r in spec['rows']:
+                if r[ki] == op['key']:
+                    r[ci] = op['value']
+    return out if out is not None else tables
+
+
+def global_state():
+    """Process-wide settings that later calls (of the library or of the
+    caller) depend on and that no library call has any business changing:
+    pandas options, numpy error state, recursion limit, working directory."""
+    import copy
+    import os
+    import sys
+    import numpy as np
+    st = {'np_err': dict(np.geterr()),
+          'recursion_limit': sys.getrecursionlimit(),
+          'cwd': os.getcwd()}
+    try:
+        from pandas._config import config as _pc
+        st['pandas_options'] = copy.deepcopy(_pc._global_config)
+    except Exception:   # noqa: private layout changed - not judged then
+        st['pandas_options'] = None
+    return st
+
+
+def global_state_diff(a, b):
+    out = []
+    for k in ('np_err', 'recursion_limit', 'cwd'):
+        if a[k] != b[k]:
+            out.append('%s %r -> %r' % (k, a[k], b[k]))
+    pa, pb = a.get('pandas_options'), b.get('pandas_options')
+    if pa is not None and pb is not None and pa != pb:
+        def flat(d, pre=''):
+            r = {}
+            for k, v in d.items():
+                if isinstance(v, dict):
+                    r.update(flat(v, pre + k + '.'))
+                else:
+                    r[pre + k] = v
+            return r
+        fa, fb = flat(pa), flat(pb)
+        for k in sorted(set(fa) | set(fb)):
+            if fa.get(k) != fb.get(k):
+                out.append('pandas option %s %r -> %r' %
+                           (k, fa.get(k), fb.get(k)))
+    return out
+
+
+def restore_global_state(st):
+    import os
+    import sys
+    import numpy as np
+    np.seterr(**st['np_err'])
+    sys.setrecursionlimit(st['recursion_limit'])
+    try:
+        os.chdir(st['cwd'])
+    except Exception:   # noqa
+        pass
+    if st.get('pandas_options') is not None:
+        import copy
+        from pandas._config import config as _pc
+        _pc._global_config.clear()
+        _pc._global_config.update(copy.deepcopy(st['pandas_options']))
+
+
 class World(object):
     def __init__(self, case, ssj):
         self.case = case
+        self.gstate = global_state()
         self.ssj = ssj
         self.tables = {}
         self.snap = {}
@@ -215,6 +301,33 @@ class World(object):
                 raise ValueError('retune %r' % (k,))
             spec[k] = v
         self.tok_cfg[name] = simtok.config_of(tok)
+
+    def edit_table(self, op):
+        """The *caller* changes one cell of one of its tables between two
+        library calls - in place, or by deriving a new DataFrame (copy /
+        assign) that replaces the old one.  The model follows."""
+        name = op['t']
+        df = self.tables[name]
+        pos = [i for i, r in enumerate(self.rows[name])
+               if r[op['key_col']] == op['key']]
+        if len(pos) != 1:
+            return False
+        i = pos[0]
+        ci = df.columns.get_loc(op['col'])
+        how = op.get('how', 'inplace')
+        if how == 'inplace':
+            df.iloc[i, ci] = op['value']
+        elif how == 'copy':
+            df = df.copy()
+            df.iloc[i, ci] = op['value']
+        else:
+            col = df[op['col']].copy()
+            col.iloc[i] = op['value']
+            df = df.assign(**{op['col']: col})
+        self.tables[name] = df
+        self.rows[name][i][op['col']] = op['value']
+        self.snap[name] = snapshot(df)
+        return True
 
     def apply_retunes(self, history, upto):
         for op in history[:upto]:
